@@ -333,9 +333,9 @@ def run_send_sweep(kind, k, variant="plain", seed=1):
                 n.feed(n.make("ANS", True, 1).dump())
             elif variant == "partial":
                 pass
-            v, others = psm, [tr]
+            v, others = psm, ([tr] if kind != "psm/submitter" else [])
             vend = lambda i: i > 0 and not a._send_messages.items and n.at_ticker(psm)
-            ocond = lambda: tr.pending is not None and tr.pending[0] == "select" and s.enabled(tr) != "go"
+            ocond = (lambda: tr.pending is not None and tr.pending[0] == "select" and s.enabled(tr) != "go") if kind != "psm/submitter" else (lambda: True)
         for i in range(k):
             if v.done or s.enabled(v) != "go" or vend(i):
                 ended = True
@@ -346,6 +346,11 @@ def run_send_sweep(kind, k, variant="plain", seed=1):
         if kind == "transport/feed":
             n.feed(n.make("ANS", True, 1).dump())
         solo(others, ocond, limit=3000)
+        if kind == "psm/submitter":
+            # an application thread submits the next message while the state machine thread stands in the middle of its sending tick
+            # (as far as it gets: it may have to wait for the association lock)
+            s2 = s.spawn("sender2", lambda: n.d.send_message(m2))
+            solo([s2], lambda: s2.done, limit=2000)
         solo([v], lambda: v.done or (v.pending is not None and v.pending[0] in ("select",) and s.enabled(v) != "go") or (v is psm and n.at_ticker(psm) and not a._send_messages.items), limit=3000)
         if kind == "psm/transport":
             s2 = s.spawn("sender2", lambda: n.d.send_message(m2))
@@ -455,11 +460,17 @@ def run_recv(seed, nmsgs, seg_kind, consumers, mix_base=True, cut=None, fine=Non
         cons = [sc.s.spawn(f"consumer{c}", consumer, c) for c in range(consumers)]
         pending = list(segs)
 
+        slow = seed % 5 == 3 and len(segs) <= 12
+
         def feeder():
-            # the network delivers the segments one by one, at arbitrary moments
+            # the network delivers the segments one by one, at arbitrary moments; in "slow" scenarios with pauses longer than any
+            # timeout of the node's threads in between (a retransmission, a closed window: TCP may deliver the rest arbitrarily late)
             while pending:
                 n.feed(pending.pop(0))
                 vsched.SCHED.yield_op(("op", None, "net"), write=True)
+                if slow and pending:
+                    import bromelia.setup as _bs
+                    _bs.time.sleep(2.5)
         sc.s.spawn("net", feeder)
         ndwr = sum(1 for k, _m in seq if k == "DWR")
         try:
